@@ -1,19 +1,19 @@
 package main
 
 import (
-	"regexp"
 	"context"
-	"sync"
-	"os/exec"
 	"encoding/json"
 	"flag"
 	"fmt"
 	"os"
+	"os/exec"
 	"path/filepath"
+	"regexp"
 	"runtime"
 	"sort"
 	"strconv"
 	"strings"
+	"sync"
 	"time"
 )
 
@@ -269,6 +269,9 @@ func cmdCheck(args []string) int {
 		baselineNorm[normName(n)] = true
 	}
 	known := loadKnown()
+	// obligations the provers left open on the reference tree were never claimed: whatever a solver says about them now
+	// (a `sat` there is a model of the abstraction -- loops without invariants, havocked callees -- not an execution)
+	openBase := loadBaselineOpen(id)
 	var reports []oblReport
 	var failed, undecided, discharged []*job
 	vacuous := []string{}
@@ -292,6 +295,9 @@ func cmdCheck(args []string) int {
 		switch {
 		case j.res.Status == "unsat":
 			discharged = append(discharged, j)
+		case openBase[j.obl.Name] && !*writeBaseline:
+			res = "undecided(" + j.res.Status + ")"
+			undecided = append(undecided, j)
 		case baseline[j.obl.Name] || len(baseline) == 0 || j.res.Status == "sat" || (contractKind(j.obl.Kind) && baselineNorm[normName(j.obl.Name)]):
 			res = "FAILED(" + j.res.Status + ")"
 			failed = append(failed, j)
@@ -348,6 +354,38 @@ func cmdCheck(args []string) int {
 			undecided = rest
 		}
 	}
+	if len(baseline) > 0 && !*writeBaseline {
+		// a safety obligation that is not in the baseline and is refuted (`sat`) counts as failed -- unless the function had
+		// open obligations of that kind on the reference tree and has no more of them now: then it is one of those under a
+		// shifted ordinal (the model is one of the abstraction, see above)
+		base := map[string]int{}
+		for n := range openBase {
+			base[unitKindOf(n)]++
+		}
+		if len(base) > 0 {
+			tot := map[string]int{}
+			for _, j := range undecided {
+				if !contractKind(j.obl.Kind) {
+					tot[unitKindOf(j.obl.Name)]++
+				}
+			}
+			for _, j := range failed {
+				if !contractKind(j.obl.Kind) {
+					tot[unitKindOf(j.obl.Name)]++
+				}
+			}
+			var rest []*job
+			for _, j := range failed {
+				uk := unitKindOf(j.obl.Name)
+				if !contractKind(j.obl.Kind) && !baseline[j.obl.Name] && base[uk] > 0 && tot[uk] <= base[uk] {
+					undecided = append(undecided, j)
+					continue
+				}
+				rest = append(rest, j)
+			}
+			failed = rest
+		}
+	}
 	var missing []string
 	for n := range baseline {
 		if !seen[n] {
@@ -384,14 +422,24 @@ func cmdCheck(args []string) int {
 		}
 		return KnownFinding{}, false
 	}
+	knownLine := func(j *job, k KnownFinding) string {
+		line := fmt.Sprintf("KNOWN-FINDING: property=%s %s: %s", id, j.obl.Name, k.What)
+		if (*tier == "thorough" || os.Getenv("WV_REPLAY_KNOWN") != "") && j.res.Status == "sat" {
+			// a known finding is demonstrated again on every thorough run where the solver's model can be replayed
+			if path, found := e.counterexample(j, prelude, replayDir, *repo, timeout); found {
+				line += "\n  replayed on the real code (panics): " + path
+			}
+		}
+		return line
+	}
 	for _, j := range undecided {
 		if k, ok := matchKnown(j.obl.Name); ok {
-			knownHit = append(knownHit, fmt.Sprintf("KNOWN-FINDING: property=%s %s: %s", id, j.obl.Name, k.What))
+			knownHit = append(knownHit, knownLine(j, k))
 		}
 	}
 	for _, j := range failed {
 		if k, ok := matchKnown(j.obl.Name); ok {
-			knownHit = append(knownHit, fmt.Sprintf("KNOWN-FINDING: property=%s %s: %s", id, j.obl.Name, k.What))
+			knownHit = append(knownHit, knownLine(j, k))
 			continue
 		}
 		violations++
